@@ -10,6 +10,7 @@ import OpcuaModel.Model.ConnLts
 -/
 namespace Opcua.Props.C25
 open Opcua.ConnLts
+set_option linter.unusedSimpArgs false
 
 macro "close_inv" : tactic =>
   `(tactic| (simp only [Good, monTable, St.clRep, Bool.and_eq_true, Bool.or_eq_true, beq_iff_eq, bne_iff_ne,
@@ -99,5 +100,171 @@ theorem C25_transitions_partial {a h : Bool} {s s' : St} {x : ConnState} (hr : R
   rcases C25_transitions hr hs with h1 | ⟨h2, _⟩
   · exact h1
   · simp [hc] at h2
+
+/-- after `Close` (monitor context cancelled) no TCP connect attempt is made any more -/
+theorem C25_no_dial_after_close {a h : Bool} {s : St} (hr : Reach a h s) (hc : s.cancelled = true) :
+    obs s .dial = [] := by
+  have hi := C25_invariant hr
+  rcases s with ⟨upc, mpc, cl, ca, sess, last, auto, hooks⟩
+  simp only at hc; subst hc
+  cases hooks <;> cases upc <;> cases mpc <;> simp [obs] <;> close_inv
+
+/-- once the monitor context is cancelled it stays cancelled and every step
+    that moves the monitor goroutine strictly decreases `exitRank`: the
+    goroutine exits (reporting `Closed`) after at most 7 of its own steps -/
+theorem C25_monitor_exits {a h : Bool} {s s' : St} (hr : Reach a h s) (hc : s.cancelled = true)
+    (hs : s' ∈ tau s ∨ ∃ e, s' ∈ obs s e) :
+    s'.cancelled = true ∧ (s'.mpc = s.mpc ∨ exitRank s'.mpc < exitRank s.mpc) := by
+  have hi := C25_invariant hr
+  rcases s with ⟨upc, mpc, cl, ca, sess, last, auto, hooks⟩
+  simp only at hc; subst hc
+  rcases hs with h | ⟨e, h⟩
+  · simp only [tau, List.mem_append] at h
+    rcases h with ((hA | hB) | hC) | hD
+    · cases hooks <;> simp at hA
+      cases mpc <;> simp [monHidden] at hA
+      · rcases hA with rfl | rfl | rfl | rfl | rfl | rfl <;> simp [exitRank]
+      · subst hA; simp [exitRank]
+    · simp at hB
+    · cases upc <;> simp at hC <;> rcases hC with rfl | rfl <;> simp
+    · cases mpc with
+      | act b => cases b <;> simp at hD <;> subst hD <;> simp [exitRank]
+      | err c => cases auto <;> simp at hD <;> subst hD <;> cases c <;> simp [exitRank, classify]
+      | restore1 => cases sess <;> simp at hD <;> (first | (rcases hD with rfl | rfl | rfl) | subst hD) <;> simp [exitRank]
+      | recreate1 => simp at hD; rcases hD with rfl | rfl | rfl <;> simp [exitRank]
+      | dialed => simp at hD; rcases hD with rfl | rfl <;> simp [exitRank]
+      | _ => simp at hD <;> (try subst hD) <;> simp [exitRank]
+  · simp only [obs, List.mem_append] at h
+    rcases h with hA | hB
+    · cases hooks <;> simp at hA
+      cases mpc <;> cases e <;> simp at hA <;> subst hA <;> simp [exitRank]
+    · cases e with
+      | st x =>
+        simp only [List.mem_append] at hB
+        rcases hB with (hU | hC) | hM
+        · -- Connect's own reports happen before Close can be called (invariant)
+          cases upc <;> cases x <;> simp at hU <;> subst hU <;> close_inv
+        · simp at hC; rcases hC with ⟨_, rfl⟩; simp
+        · cases mpc with
+          | act b => cases b <;> cases x <;> simp at hM <;> subst hM <;> simp [exitRank]
+          | _ => cases x <;> simp at hM <;> subst hM <;> simp [exitRank]
+      | dial => simp at hB; rcases hB with ⟨_, rfl⟩; simp
+      | uConnect => simp at hB; rcases hB with ⟨_, rfl⟩; simp
+      | uConnectOk => simp at hB; rcases hB with ⟨_, rfl⟩; simp
+      | uConnectErr => simp at hB; rcases hB with ⟨_, rfl⟩; simp
+      | uClose => simp at hB; rcases hB with ⟨_, rfl⟩; simp
+      | uCloseEnd => simp at hB; rcases hB with ⟨_, rfl⟩; simp
+      | mError c => simp at hB
+      | mAction a => simp at hB
+      | mDone => simp at hB
+
+/-- CLOSED IS FINAL: once `Close` has returned and the monitor goroutine has
+    exited, the last reported state is `Closed` and nothing at all can happen
+    any more — no report, no dial, no hidden step -/
+theorem C25_closed_is_final {a h : Bool} {s : St} (hr : Reach a h s) (h1 : s.cl = .ended) (h2 : s.mpc = .dead) :
+    s.last = .closed ∧ tau s = [] ∧ ∀ e, obs s e = [] := by
+  have hi := C25_invariant hr
+  rcases s with ⟨upc, mpc, cl, ca, sess, last, auto, hooks⟩
+  simp only at h1 h2; subst h1 h2
+  have hu : upc = .running := by cases upc <;> simp [Good] at hi <;> rfl
+  subst hu
+  refine ⟨?_, ?_, ?_⟩
+  · close_inv
+  · cases hooks <;> simp [tau, monHidden]
+  · intro e; cases hooks <;> cases e <;> simp [obs]
+
+/-- … and the monitor goroutine does get there: `C25_monitor_exits` bounds its
+    remaining steps, and in `exit` the only thing it can do is report `Closed` -/
+theorem C25_exit_reports_closed {a h : Bool} {s s' : St} {x : ConnState} (hr : Reach a h s) (hm : s.mpc = .exit)
+    (hs : s' ∈ obs s (.st x)) (hmoved : s'.mpc ≠ s.mpc) : x = .closed ∧ s'.mpc = .dead := by
+  have hi := C25_invariant hr
+  rcases s with ⟨upc, mpc, cl, ca, sess, last, auto, hooks⟩
+  simp only at hm; subst hm
+  simp only [obs, List.mem_append] at hs
+  rcases hs with hA | (hU | hC) | hM
+  · cases hooks <;> simp at hA
+  · cases upc <;> cases x <;> simp at hU <;> subst hU <;> (first | (simp at hmoved; done) | close_inv)
+  · simp at hC; rcases hC with ⟨_, rfl⟩; simp at hmoved
+  · cases x <;> simp at hM <;> subst hM <;> simp
+
+/-- BOUNDED RECOVERY: from every point of the reconnect loop, if every
+    environment answer is a success (`happy`) and nobody calls Close, the
+    client reports `Connected` and the monitor is back in its waiting state
+    after at most 17 steps -/
+theorem C25_recovers {a h : Bool} {s : St} (hr : Reach a h s) (hn : s.cl = .no) (h : reconnecting s = true) :
+    (iter happy 17 s).mpc = .wait ∧ (iter happy 17 s).last = .connected := by
+  have hi := C25_invariant hr
+  rcases s with ⟨upc, mpc, cl, ca, sess, last, auto, hooks⟩
+  simp only at hn; subst hn
+  cases mpc with
+  | done => simp [iter, happy]; close_inv
+  | err c => cases c <;> cases sess <;> simp [reconnecting] at h <;> simp [iter, happy, classify]
+  | top b => cases b <;> cases sess <;> simp [reconnecting] at h <;> simp [iter, happy]
+  | act b => cases b <;> cases sess <;> simp [reconnecting] at h <;> simp [iter, happy]
+  | _ => cases sess <;> simp [reconnecting] at h <;> simp [iter, happy, classify]
+
+/-- every `happy` step is a step of the LTS (so the recovery path is a path of the model) -/
+theorem C25_happy_is_step (s : St) (h : reconnecting s = true) (hc : s.cancelled = false) (ha : s.auto = true) :
+    happy s ∈ tau s ∨ ∃ e, happy s ∈ obs s e := by
+  rcases s with ⟨upc, mpc, cl, ca, sess, last, auto, hooks⟩
+  simp only at hc ha; subst hc ha
+  cases mpc with
+  | disc => cases hooks
+            · left; simp [happy, tau, monHidden]
+            · right; exact ⟨.mError .eof, by simp [happy, obs]⟩
+  | err c => left; cases c <;> simp [reconnecting] at h <;> simp [happy, tau, classify]
+  | top b => cases hooks
+             · left; simp [happy, tau, monHidden]
+             · right; exact ⟨.mAction b, by simp [happy, obs]⟩
+  | act b =>
+    cases b <;> simp [reconnecting] at h
+    · right; exact ⟨.st .reconnecting, by simp [happy, obs]⟩
+    · right; exact ⟨.st .reconnecting, by simp [happy, obs]⟩
+    · right; exact ⟨.st .reconnecting, by simp [happy, obs]⟩
+    · right; exact ⟨.st .connected, by simp [happy, obs]⟩
+    · left; simp [happy, tau]
+  | dialLoop => right; exact ⟨.dial, by simp [happy, obs]⟩
+  | dialed => left; simp [happy, tau]
+  | dialWait => left; simp [happy, tau]
+  | restore1 => left; cases sess <;> simp [happy, tau]
+  | recreate1 => left; simp [happy, tau]
+  | done => cases hooks
+            · left; simp [happy, tau, monHidden]
+            · right; exact ⟨.mDone, by simp [happy, obs]⟩
+  | _ => simp [reconnecting] at h
+
+/-- FINDING C25.state-after-close: the trace "connection lost → monitor about
+    to recreate the channel → user calls Close (Closed reported, Close returns)
+    → monitor reports Reconnecting → monitor reports Closed" is a path of the
+    model, and Closed → Reconnecting is not a documented transition -/
+theorem C25_finding_state_after_close :
+    accepts true true [.uConnect, .st .connecting, .dial, .st .connected, .uConnectOk,
+      .st .disconnected, .mError .eof, .mAction .createSecureChannel,
+      .uClose, .st .closed, .uCloseEnd, .st .reconnecting, .st .closed] = true ∧
+    doc .closed .reconnecting = false := by
+  decide +kernel
+
+/-- the same with `Connected` reported after `Closed` (Close while the monitor
+    is about to restore the subscriptions) -/
+theorem C25_finding_connected_after_close :
+    accepts true true [.uConnect, .st .connecting, .dial, .st .connected, .uConnectOk,
+      .st .disconnected, .mError .badSubscription, .mAction .transferSubscriptions, .mAction .restoreSubscriptions,
+      .uClose, .st .closed, .uCloseEnd, .st .connected, .mDone, .st .closed] = true ∧
+    doc .closed .connected = false := by
+  decide +kernel
+
+/-- non-vacuity: the traces of a cut connection, of an outage with dial
+    retries and of a lost session are accepted; a report out of order is not -/
+example :
+    accepts true true [.uConnect, .st .connecting, .dial, .st .connected, .uConnectOk, .st .disconnected, .mError .eof,
+      .mAction .createSecureChannel, .st .reconnecting, .dial, .dial, .dial, .mAction .restoreSession, .st .reconnecting,
+      .mAction .recreateSession, .st .reconnecting, .mAction .transferSubscriptions, .mAction .restoreSubscriptions,
+      .st .connected, .mDone, .uClose, .st .closed, .uCloseEnd, .st .closed] = true ∧
+    accepts true false [.uConnect, .st .connecting, .dial, .st .connected, .uConnectOk, .st .disconnected,
+      .st .reconnecting, .dial, .st .reconnecting, .st .connected, .uClose, .st .closed, .st .closed, .uCloseEnd] = true ∧
+    accepts true true [.uConnect, .st .connecting, .dial, .st .connected, .uConnectOk, .st .reconnecting] = false ∧
+    accepts false true [.uConnect, .st .connecting, .dial, .st .connected, .uConnectOk, .st .disconnected, .mError .eof,
+      .st .reconnecting] = false := by
+  decide +kernel
 
 end Opcua.Props.C25
